@@ -144,7 +144,10 @@ def run(repo, rep):
                                      'the one-tuple would evaluate to its element' if want_dangle else 'a stray comma'), nontrivial=True)
                         n += 1
                         els = [i for i in t.items if isinstance(i, D.Sub)]
-                        rep.check([e.prov for e in els] == ['x%d' % i for i in range(nel)], 'C01.a', lab + ':elements-in-order', fseq.where,
+                        exp_ = ['x%d' % i for i in range(nel)]
+                        got_ = [e.prov for e in els]
+                        # on a path that assumes the value is longer than max_seq_len a prefix is shown (how long, and the notice: C10)
+                        rep.check(got_ == exp_ or (pr.assumed('max_seq_len <', True) and got_ == exp_[:len(got_)]), 'C01.a', lab + ':elements-in-order', fseq.where,
                                   'every element once, in iteration order', 'elements handed to the builder: %s' % [D.show(i) for i in t.items])
                     elif isinstance(t, D.Call):
                         n += 1
